@@ -62,6 +62,10 @@ type Kernel struct {
 	adoptSpawned bool
 	adoptMu      sync.Mutex
 
+	// writers waiting per mutex (see VerifPending in the instrumented copy)
+	pendID [32]any
+	pendN  [32]int
+
 	// whether the task is between the library's "cmd.admitted" and "cmd.done"
 	// hook points (a command is being handled)
 	inCmd [maxTasks]bool
@@ -193,6 +197,46 @@ func (k *Kernel) Yield(task int, point string) {
 		return
 	}
 	k.park(task, point)
+}
+
+// Pending implements the library-side VerifPending hook: op +1/-1 counts the
+// writers waiting for mutex id, op 0 reports whether any is waiting.
+//
+//go:norace
+func (k *Kernel) Pending(id any, op int) bool {
+	raceDisable()
+	defer raceEnable()
+	slot, free := -1, -1
+	for i := range k.pendID {
+		if k.pendID[i] == id {
+			slot = i
+			break
+		}
+		if k.pendID[i] == nil && free < 0 {
+			free = i
+		}
+	}
+	switch {
+	case op == 0:
+		return slot >= 0 && k.pendN[slot] > 0
+	case op > 0:
+		if slot < 0 {
+			if free < 0 {
+				return false
+			}
+			slot = free
+			k.pendID[slot] = id
+		}
+		k.pendN[slot]++
+	default:
+		if slot >= 0 {
+			k.pendN[slot]--
+			if k.pendN[slot] <= 0 {
+				k.pendID[slot], k.pendN[slot] = nil, 0
+			}
+		}
+	}
+	return false
 }
 
 // adopt makes a goroutine that the code under test started on its own (a
